@@ -141,6 +141,7 @@ def cfgOf (v : String) : Option Cfg :=
   else if v = "iceberg_old" then some cfgIcebergOld
   else if v = "sql_old" then some cfgSqlOld
   else if v = "sql_ts32" then some cfgSqlTs32
+  else if v = "sql_cntmul7" then some cfgSqlCntMul7
   else none
 
 def doBuild (d : DriverCfg) (ts : List String) : String :=
